@@ -2,7 +2,7 @@ SPECIFICATION Spec
 CONSTANTS
   MaxDev = 1
   NRandom = 0
-  FaultKinds = {"err", "cut", "authfn", "proto2map"}
+  FaultKinds = {"err", "unkhello", "cut", "authfn", "proto2map"}
   Topos = {"single", "redirect", "cluster", "sentinel"}
   SrvKinds = {"v7", "nohello", "proto2"}
   Emit = FALSE
@@ -10,6 +10,10 @@ CONSTANTS
   BugAuthLate = FALSE
   BugTolerateNoEvict = FALSE
   BugFallbackAnyHelloErr = FALSE
-INVARIANTS TypeOK AuthLeadsResp2 NoUserCommandBeforeSetup ServedOnlyWhenConfigured FallbackOnlyOnHelloRejected NoFallbackWithCache
+  ErrTexts = "rotate"
+  StrictHelloStep = FALSE
+  BugMixCreds = FALSE
+  BugNopermFallback = FALSE
+INVARIANTS TypeOK AuthLeadsResp2 AuthAsSupplied NoUserCommandBeforeSetup ServedOnlyWhenConfigured FallbackOnlyOnHelloRejected NoFallbackWithCache
   FailedStepFailsConnection ToleratedOnly NoCacheOnlyWithCacheOrClient CleanRunSucceeds OldServerWorksWithoutCache
 CHECK_DEADLOCK FALSE
